@@ -235,11 +235,17 @@ func runCheck(id, tier, repo, verif string, writeEvidence bool) int {
 			missing = append(missing, name)
 			continue
 		}
+		sitesOnly := false
 		if con.flag("trusted") {
-			continue // assumed contract: the body is not analysed (listed in evidence)
+			if len(con.Sites) == 0 {
+				continue // assumed contract: the body is not analysed (listed in evidence)
+			}
+			// an assumed contract that also carries site clauses: the frame and the postconditions stay assumed,
+			// the site clauses are checked on the body
+			sitesOnly = true
 		}
 		wg.Add(1)
-		go func(name string, fn *ssa.Function, con *Contract) {
+		go func(name string, fn *ssa.Function, con *Contract, sitesOnly bool) {
 			defer wg.Done()
 			sem <- struct{}{}
 			defer func() { <-sem }()
@@ -252,6 +258,9 @@ func runCheck(id, tier, repo, verif string, writeEvidence bool) int {
 			}
 			var sel []*Obligation
 			for _, o := range vc.Obls {
+				if sitesOnly && o.Kind != "site" {
+					continue
+				}
 				if belongs(o, con, ps) {
 					sel = append(sel, o)
 				}
@@ -262,7 +271,7 @@ func runCheck(id, tier, repo, verif string, writeEvidence bool) int {
 			cr.results = append(cr.results, res...)
 			cr.fns = append(cr.fns, name)
 			mu.Unlock()
-		}(name, fn, con)
+		}(name, fn, con, sitesOnly)
 	}
 	wg.Wait()
 	// second chance, one at a time: an obligation that ran out of time (no counterexample) while everything else
